@@ -609,6 +609,23 @@ func (p *Program) StoreGetter(fn *ssa.Function) *GetterInfo {
 	if get == nil {
 		return nil
 	}
+	// no write through a callee either (a function that reads a record and stores one through a setter is not a getter)
+	for _, b := range fn.Blocks {
+		for _, in := range b.Instrs {
+			if call, ok := in.(ssa.CallInstruction); ok {
+				for _, cal := range p.Callees(call) {
+					if cal == fn || cal.Blocks == nil {
+						continue
+					}
+					for _, o := range p.storeInfo(cal).ops {
+						if o.IsWrite() {
+							return nil
+						}
+					}
+				}
+			}
+		}
+	}
 	res := fn.Signature.Results()
 	if res.Len() == 0 || res.Len() > 2 {
 		return nil
